@@ -190,6 +190,38 @@ func c16NamesTolerable(c *c16Case, impl, model []string) bool {
 	return true
 }
 
+// c16NoSeekServed: the configuration hands out files that are no io.ReadSeeker (Fault 4: Static(FS) route variants 16, 17,
+// File helpers 3, 4, 5, 7 — recording file systems rooted at the root), the model answered err500 AFTER it had opened a
+// regular file (the last name it handed to the file system names a regular file under the root: the requested file, or
+// the index.html of the requested directory), and the implementation answered 200 with exactly THAT file's bytes.
+// Serving the bytes of the file the clean path names is the positive clause of the property; the refusal of
+// non-seekable files is an assumption of the model (obligations/C16.json), not something the property states.
+// Another file, a listing, content from elsewhere, a model refusal for any other reason (undecodable path: no name
+// opened; a name that is no regular file) are not covered.
+func c16NoSeekServed(c *c16Case, im, mo c16ObsLine) bool {
+	if c.Fault != 4 || !mo.hasNames || len(mo.names) == 0 || len(mo.out) != 1 || mo.out[0] != "err500" || len(im.out) != 2 || im.out[0] != "file" {
+		return false
+	}
+	switch c.Kind {
+	case 1:
+		if c.Variant != 16 && c.Variant != 17 {
+			return false
+		}
+	case 2:
+		if c.Variant != 3 && c.Variant != 4 && c.Variant != 5 && c.Variant != 7 {
+			return false
+		}
+	default:
+		return false
+	}
+	last := mo.names[len(mo.names)-1]
+	if !c16NameInside(last, "") || path.Clean(last) != last || strings.HasPrefix(last, "/") {
+		return false
+	}
+	e, ok := c16ByRel[c16RootName+"/"+last]
+	return ok && !e.dir && strconv.Itoa(e.id) == im.out[1]
+}
+
 func c16Tolerable(ci any, implObs, modelObs string) bool {
 	c, ok := ci.(*c16Case)
 	if !ok {
@@ -213,6 +245,10 @@ func c16Tolerable(ci any, implObs, modelObs string) bool {
 		// refused by both, with different statuses
 	case len(mo.out) == 1 && mo.out[0] == "panic" && c16Refusal(im.out):
 		// the model's request crashes (nothing is returned), the implementation refuses it: nothing returned either
+	case c16NoSeekServed(c, im, mo):
+		// files that cannot seek (Fault 4): the model refuses them (fsFile's 500 "does not implement io.ReadSeeker" at
+		// the pinned commit), the implementation serves exactly the file the model found and could not hand to
+		// http.ServeContent — which is what the positive clause asks for
 	default:
 		// served vs not served, another file, another listing, next handler answered vs not, redirect, 2xx with
 		// another body, a panic the model does not have, a refused / accepted configuration: never tolerated
